@@ -16,7 +16,7 @@ META = {
     "level_text": ("Partial (P-core). Proved for every input and every segmentation of the byte stream: "
                    "LengthPrefixedBodyDecoder, ChunkedBodyDecoder (incl. error mid-stream) and the v3 "
                    "ProtocolThreeDecoder framing decode what the encoders wrote and keep the trailing bytes; "
-                   "ConventionalResponseHandler rebuilds status/args/body/stream error; v1/v2 argument tuples and readv "
+                   "ConventionalResponseHandler rebuilds status/args/body/stream error (also before the first chunk); v1/v2 argument tuples and readv "
                    "offsets round-trip (tuples under the guard 'no \\x01/\\n in an argument', refuted without it). "
                    "The composition into whole v1/v2/v3 requests and responses (request handlers, media, bencode) is "
                    "covered by the end-to-end oracle only."),
@@ -48,7 +48,8 @@ def corpus():
         {"kind": "deser", "text": b"1,2\n\n3,4\n"},
         {"kind": "deser", "text": b"1,2,3"},
         {"kind": "lp_raw", "stream": b"3\nabcdXne\nzz", "lens": [4, 3]},
-        sc.E2E_WITNESS,      # known finding C29-v3-stream-error-before-first-chunk
+        sc.E2E_WITNESS,      # regression: stream error before the first chunk (fixed by 737004f)
+        {"kind": "rh", "events": [["h"], ["o", b"S"], ["s", [b"ok"]], ["o", b"E"], ["s", [b"error", b"boom"]], ["e"]]},
     ]
 
 
@@ -62,6 +63,7 @@ def cases(rng, tier):
                                           for _ in range(rng.randint(0, 5))]}
         yield {"kind": "dtuple", "line": sc.rbytes(rng, rng.randint(0, 8), b"a\x01\n")}
         yield {"kind": "deser", "text": sc.rbytes(rng, rng.randint(0, 10), b"01,\n9")}
+    yield from sc.gen_rh(rng, tier)
     yield from sc.gen_e2e(rng, tier)
 
 
@@ -112,15 +114,41 @@ def oracle(inp, obs):
     elif k == "offsets":
         if obs[1] != [list(o) for o in inp["offs"]]:
             return f"offsets {inp['offs']!r} decoded as {obs[1]!r}"
+    elif k == "rh":
+        return _oracle_rh(inp, obs)
     elif k == "e2e":
         return sc.oracle_e2e(inp, obs)
     return None
 
 
+def _oracle_rh(inp, obs):
+    """A conventional response (status, args, [body | chunks [status [error]]], end) must be accepted and
+    rebuilt exactly - in particular the error tuple of a stream that fails before its first chunk."""
+    ev = [e for e in inp["events"] if e[0] not in ("h", "e")]
+    if len(ev) < 2 or ev[0][0] != "o" or ev[0][1] not in (b"S", b"E") or ev[1][0] != "s":
+        return None
+    rest, i = ev[2:], 0
+    chunks = []
+    while i < len(rest) and rest[i][0] == "b":
+        chunks.append(rest[i][1])
+        i += 1
+    tail = rest[i:]
+    if tail == []:
+        st, err = None, None
+    elif len(tail) == 1 and tail[0] == ["o", b"S"]:
+        st, err = b"S", None
+    elif len(tail) == 2 and tail[0] == ["o", b"E"] and tail[1][0] == "s":
+        st, err = b"E", sc.bencode(list(tail[1][1]))
+    else:
+        return None                                  # not a conventional response
+    want = [ev[0][1], sc.bencode(list(ev[1][1])), chunks, bool(chunks) or st is not None, st, err]
+    if isinstance(obs, Err) or list(obs) != want:
+        return f"response parts {inp['events']!r} rebuilt as {obs!r}, expected {want!r}"
+    return None
+
+
 def finding_matches(fid, inp, obs, why):
-    if fid == "C29-v3-stream-error-before-first-chunk":
-        return sc.is_stream_error_before_first_chunk(inp) and "could not decode" in (why or "could not decode")
-    return False
+    return False        # C29-v3-stream-error-before-first-chunk is fixed (737004f): nothing is excused
 
 
 def nontrivial(inp, obs):
@@ -138,4 +166,5 @@ def distribution(inputs, observations):
     d["single_split"] = sum(1 for i in inputs if len(i.get("lens", [])) == 1)
     d["with_tail"] = sum(1 for i in inputs if i.get("tail"))
     d["stream_error"] = sum(1 for i in inputs if i.get("err") is not None)
+    d["e2e_stream_error_before_first_chunk"] = sum(1 for i in inputs if sc.is_stream_error_before_first_chunk(i))
     return d
